@@ -414,6 +414,27 @@ def make_mesh_type(rng, cls, n_duct=None, regions_ok=True):
     return t
 
 
+def reverse_pairs(P, rng, frac=0.25):
+    """The two flat-to-flat values of a duct may be written in either
+    order. In some cores the outermost duct of every type is written
+    (outer, inner) - DASSH's input check compares the LAST value across the
+    types, so the types of a core have to agree on it - and the inner ducts
+    in either order."""
+    if rng.random() >= frac:
+        return False
+    # (so the outermost walls get one thickness: the thinnest of them)
+    inner = max(sorted(t['duct_ftf'])[-2] for t in P['types'].values())
+    for t in P['types'].values():
+        w = sorted(t['duct_ftf'])
+        w[-2] = inner
+        nd = len(w) // 2
+        for i in range(nd):
+            if i == nd - 1 or rng.random() < 0.5:
+                w[2 * i], w[2 * i + 1] = w[2 * i + 1], w[2 * i]
+        t['duct_ftf'] = w
+    return True
+
+
 def _place(P, tname, k0, rng):
     ring, pos = gen.ring_pos(k0)
     gen.add_position(P, tname, ring, pos, velocity=float(rng.uniform(0.5, 3)),
@@ -560,7 +581,14 @@ def run_direct(case, res, P, feats, rng):
               bool(np.array_equal(xb_all, core._asm_sc_xbnds)),
               'Core._calculate_gap_xbnds() differs from the stored array',
               {'mech': 'gap_xbnds_not_reproducible'})
-    P6 = 6.0 * core.duct_oftf / np.sqrt(3.0)
+    # perimeter of the outer hexagon from the INPUT (largest flat-to-flat
+    # value, the same for all types of a core)
+    P6 = 6.0 * max(max(float(x) for x in t['duct_ftf'])
+                   for t in P['types'].values()) / np.sqrt(3.0)
+    res.close('P0_core_hexagon_is_outer_hexagon_of_input',
+              6.0 * core.duct_oftf / np.sqrt(3.0) - P6, P6, 1e-12,
+              'the hexagon the core lays the gap mesh on is not the outer '
+              'hexagon of the assemblies', {'mech': 'perimeter'})
     seen = set()
     different = 0
     for ai, asm in enumerate(r.assemblies):
@@ -853,6 +881,39 @@ def run_hooked(case, res, P, feats, rng, n_steps):
                           'its own duct mesh and the gap mesh around its own '
                           'assembly (or the two directions are swapped)',
                           {'mech': 'wiring', 'region': _region_kind(reg)})
+        # both meshes go once around the outer hexagon of the assembly as the
+        # INPUT gives it (largest flat-to-flat value of the type, however
+        # the pairs were written)
+        for ai, a in enumerate(r.assemblies):
+            f_in = P['types'].get(a.name, {}).get('duct_ftf')
+            if not f_in:
+                continue
+            per = 2.0 * np.sqrt(3.0) * max(float(x) for x in f_in)
+            wp_ = r.core.gap_params.get('asm wp') if hasattr(
+                r.core, 'gap_params') else None
+            if wp_ is not None:
+                got_ = float(np.sum(np.asarray(wp_[ai], dtype=float)[
+                    :int(r.core._n_sc_per_asm[ai])]))
+                res.close('H6_meshes_span_the_outer_hexagon_of_the_input',
+                          got_ - per, per, 1e-10,
+                          'contact lengths of the gap cells around assembly '
+                          '%d do not add up to the outer hexagon perimeter '
+                          'of its type' % ai,
+                          {'mech': 'gap_mesh_perimeter',
+                           'reversed_pair': bool(list(f_in) != sorted(f_in))},
+                          {'got': got_, 'perimeter': per})
+            for reg in a.region:
+                xb = np.asarray(reg.calculate_xbnds(), dtype=float)
+                res.close('H6_meshes_span_the_outer_hexagon_of_the_input',
+                          float(xb[-1]) - per, per, 1e-10,
+                          'duct mesh of a region of assembly %d does not '
+                          'span the outer hexagon perimeter of its type' % ai,
+                          {'mech': 'duct_mesh_perimeter',
+                           'region': _region_kind(reg),
+                           'reversed_pair': bool(list(f_in) != sorted(f_in))},
+                          {'got': float(xb[-1]), 'perimeter': per})
+            if list(f_in) != sorted(f_in):
+                res.tag('duct_pair_written_outer_first')
         # the contact length the core multiplies fluxes with, per gap cell
         # around each assembly, is the width of that cell of the gap mesh
         wp = r.core.gap_params.get('asm wp') if hasattr(
@@ -976,6 +1037,8 @@ def run_case(case):
     builder = {'grid': build_grid, 'core': build_core, 'split': build_split,
                'near': build_near}[kind]
     P, feats = builder(case, rng)
+    feats['outer_pair_reversed'] = reverse_pairs(
+        P, np.random.default_rng(case['seed'] + [77]))
     try:
         if kind in ('grid', 'near'):
             different = run_direct(case, res, P, feats, rng)
